@@ -506,26 +506,49 @@ class Q:
             return o
         if isinstance(o, (int, float)) and not isinstance(o, bool):
             return Q.const(Fraction(o).limit_denominator(1 << 30))
+        if isinstance(o, bool) or type(o).__name__ in ('bool_', 'bool'):
+            return Q.const(1 if o else 0)               # a mask cell: 0 / 1
+        if type(o).__module__ == 'numpy' and type(o).__name__.startswith(('int', 'uint')):
+            return Q.const(int(o))
+        if type(o).__module__ == 'numpy' and type(o).__name__.startswith('float'):
+            return Q.const(Fraction(float(o)).limit_denominator(1 << 30))
         raise Unknown(f'operand {type(o).__name__}')
 
+
+    @staticmethod
+    def _arr(o):
+        return type(o).__name__ == 'ndarray'
+
     def __add__(self, o):
+        if Q._arr(o):
+            return NotImplemented
         return Q(self.rf.add(Q.lift(o).rf))
     __radd__ = __add__
 
     def __sub__(self, o):
+        if Q._arr(o):
+            return NotImplemented
         return Q(self.rf.add(Q.lift(o).rf, -1))
 
     def __rsub__(self, o):
+        if Q._arr(o):
+            return NotImplemented
         return Q(Q.lift(o).rf.add(self.rf, -1))
 
     def __mul__(self, o):
+        if Q._arr(o):
+            return NotImplemented
         return Q(self.rf.mul(Q.lift(o).rf))
     __rmul__ = __mul__
 
     def __truediv__(self, o):
+        if Q._arr(o):
+            return NotImplemented
         return Q(self.rf.mul(Q.lift(o).rf, -1))
 
     def __rtruediv__(self, o):
+        if Q._arr(o):
+            return NotImplemented
         return Q(Q.lift(o).rf.mul(self.rf, -1))
 
     def __neg__(self):
